@@ -127,7 +127,8 @@ F6(D) == IF ~D THEN {} ELSE
 \* configured one -- what the inner fang admits does not change
 F7(D) == {Row(c, [BaseTok(c) EXCEPT !.mut = mu, !.skey = k, !.via = v, !.method = m])
          : c \in Cfgs(Algs, (IF D THEN K3 ELSE {"k1"}), {"default"}, P2, {"stacked"}),
-           mu \in {"none", "flip3", "extra", "garbage", "trunc"}, k \in {"same", "other"}, v \in {"std", "nohdr", "wronghdr"}, m \in {"GET", "POST"}}
+           mu \in {"none", "flip3", "extra", "garbage", "trunc"}, k \in {"same", "other", "outer"}, v \in {"std", "nohdr", "wronghdr"}, m \in {"GET", "POST"}}
+\* (skey = "outer": signed with the outer fang's key, and the very same token is presented to both fangs -- valid for the outer one, to be refused by the inner)
 
 JwtRowOK(r) ==
   LET c == r.cfg  t == r.tok  cl == JwtClass(c, t) IN
